@@ -1,6 +1,7 @@
 package main
 
 import (
+	"regexp"
 	"fmt"
 	"go/ast"
 	"go/constant"
@@ -821,7 +822,13 @@ func c20Guards(c *Ctx) {
 		req("unmarshalHex:too-long", "types.unmarshalHex", "len({[]byte#2})", opGT, "(len({[]byte}) * const:2)", "hex input longer than the identifier is rejected"),
 		req("unmarshalHex:alphabet", "types.unmarshalHex", "…", opNE, "nil", "non-hex characters are rejected", any),
 		req("unmarshalHex:too-short", "types.unmarshalHex", "call encoding/hex.Decode(…)#0", opLT, "len({[]byte})", "hex input shorter than the identifier is rejected", any),
-		req("Address:length", "types.(*Address).UnmarshalText", "len({[]byte})", opNE, "(len(…) * const:2)", "an address string of the wrong length is rejected"),
+		func() GuardReq {
+			r := req("Address:length", "types.(*Address).UnmarshalText", "len({[]byte})", opNE, "(len(…) * const:2)", "an address string of the wrong length is rejected")
+			// twice the decoded length (32 bytes + 6 checksum bytes), written as an expression or folded to 76
+			re2 := regexp.MustCompile(pat("(len(…) * const:2)"))
+			r.RFn = func(a string) bool { return re2.MatchString(a) || a == "const:76" }
+			return r
+		}(),
 		req("Address:alphabet", "types.(*Address).UnmarshalText", "call encoding/hex.Decode(…)#1", opNE, "nil", "non-hex characters are rejected", any),
 		req("Address:checksum", "types.(*Address).UnmarshalText", "call bytes.Equal(…)", opF, "", "an address whose checksum does not match its body is rejected", any),
 		req("PublicKey:separator", "types.(*PublicKey).UnmarshalText", "call bytes.IndexByte({[]byte}, const:58)", opLT, "const:0", "a key without the algorithm prefix is rejected"),
